@@ -24,19 +24,26 @@ MANIFEST = {
     "engine": "histx",
     "technique": "explicit-state breadth-first exploration of topology transformation histories on the real objects "
                  "against a list-of-records reference model with a per-carrier capability table",
-    "text": "From 6 hand-built topologies (explicit/default/repeated chain ids; resSeq repeated, 0, negative, identical "
-            "neighbouring residues; serials 5, 7, 100000; virtual site; all bond types with and without order; bonds across residues and chains; one-atom "
-            "residues; segment ids) all histories over {copy, deepcopy, pickle, subset(s) for EVERY non-empty increasing "
-            "subset when n<=6 atoms (menu of <=15 beyond), join(self|partner|root, keep_resSeq T/F), "
-            "to_dataframe->from_dataframe, save/load .h5, save/load .pdb} to depth 2 (thorough 3), states merged only on "
-            "identical complete content; every transition executed on the real object and compared with the model in "
-            "every field the carrier can hold; index contiguity, bond-atom identity, source immutability, eq=>hash on all "
-            "pairs of a state's family, equality preserved under the event for two equal twins, and independence under "
-            "8 edits on either side. Right level: the property quantifies over histories of a small object algebra.",
-    "note": "Bounded: <=6 atoms per fixture (<=48 after joins), plain residue names only (a PDB reader rewrites standard "
-            "residues), coordinates irrelevant; Trajectory.atom_slice/stack wrappers are not events; edits are terminal; "
-            "lineage clones for the edit phase are made with pickle (aliasing pattern verified on each clone). Fields a "
-            "carrier has no place for are not judged (docs/hdf5_format.rst, PDB column layout, to_dataframe docstring).",
+    "text": "From 10 hand-built topologies (explicit/default/repeated chain ids; resSeq repeated, 0, negative, identical "
+            "neighbouring residues; serials 5, 7, 100000; virtual site; all bond types with and without order; bonds across "
+            "residues and chains; one-atom residues; segment ids; standard residues GLY/CYS/HOH mixed with a ligand and an "
+            "ion: CYS SG-ligand, ligand-ligand, HOH O-Na, a disulfide, peptide and template bonds; two atoms with five CONECT "
+            "partners each) all histories over {copy, deepcopy, pickle, subset(s) for EVERY non-empty increasing subset when "
+            "n<=6 atoms (menu of <=15 beyond), join(self|partner|root, keep_resSeq T/F), to_dataframe->from_dataframe, "
+            "save/load .h5, save/load .pdb} to depth 2 (thorough 3), states merged only on identical complete content; every "
+            "transition executed on the real object and compared with the model in every field the carrier can hold (for "
+            ".pdb: bonds touching a non-standard residue and disulfides must survive through CONECT, template/peptide bonds of "
+            "standard residues must be present before and after); index contiguity, bond-atom identity, source "
+            "immutability, eq=>hash on all pairs of a state's family, equality preserved under the event for two equal "
+            "twins, and independence under 8 edits on either side. Right level: the property quantifies over histories of "
+            "a small object algebra.",
+    "note": "Bounded: <=6 atoms per fixture except one of 20 (<=80 after joins); standard residues limited to GLY, CYS, HOH "
+            "with canonical heavy-atom names (other standard residues / names a reader normalises: .pdb event not issued, "
+            "counted); standard-standard bonds that no PDB record holds are not judged through .pdb; coordinates irrelevant "
+            "(atoms 0.5 nm apart, no distance-detected disulfides); Trajectory.atom_slice/stack wrappers are not events; "
+            "edits are terminal; lineage clones for the edit phase are made with pickle (aliasing pattern verified on each "
+            "clone). Fields a carrier has no place for are not judged (docs/hdf5_format.rst, PDB column layout and CONECT "
+            "convention, to_dataframe docstring).",
     "ref": "DESIGN.md §3 C04, §2.2",
 }
 
